@@ -101,7 +101,7 @@ pub fn history(max_medium: usize, max_ops: usize, w: OpWeights) -> BoxedStrategy
             gen::engine_for(kind),
             raw_cfg(max_medium),
             any::<bool>(),
-            prop::collection::vec(op(max_medium, &w), 1..=max_ops),
+            prop_oneof![9 => prop::collection::vec(op(max_medium, &w), 1..=max_ops), 1 => prop::collection::vec(op(max_medium.min(120), &w), max_ops..=max_ops * 3)],
         )
             .prop_map(move |(eng, init, poison, ops)| History { dec, kind, eng, init, poison, ops })
     })
